@@ -281,6 +281,9 @@ func ruleP06Panics(p *Prog, r *Report) {
 			pos := p.instrPos(s.pn)
 			path := strings.Join(rc.path(s.f), " -> ")
 			switch {
+			case ident == "blocking select matched no case":
+				// not in the source: go/ssa ends the lowering of a `select` without default with
+				// this panic, which no execution reaches (one of the cases was chosen)
 			case fname == "klog.Unbox":
 				ctx.dischargeUnbox(rule, key, s.f, s.pn)
 			case fname == "klog.NewDurationWithFormat":
@@ -1221,7 +1224,16 @@ func ruleP06Shape(p *Prog, r *Report) {
 			}
 			return "?"
 		}
-		ok := len(va) == len(ba) && len(va) >= 3
+		// (an append inside a local function of the merge counts once per call of that function)
+		nSites := 0
+		for _, v := range va {
+			k := 1
+			if g := v.Parent(); g != pp && isHelper(g) && len(ht.sites[originFn(g)]) > 1 {
+				k = len(ht.sites[originFn(g)])
+			}
+			nSites += k
+		}
+		ok := len(va) == len(ba) && nSites >= 3
 		if ok {
 			for _, v := range va {
 				found := false
